@@ -52,12 +52,13 @@ def finish(prop, tier, seed, results, wall, known, no_evidence=False):
             k = match_known(prop, v, known)
             if k:
                 known_hits.append((k, v))
-            elif v.get("changed_vs_contract") and not v.get("contract_only") and not v.get("site_in_code") and _prop_ops(prop, v["region"]):
-                # The function differs from the text its proof hints were written for, and the failed obligation lies in
-                # (or depends on) those hints. Where the replay driver can exercise this function for this property, a
-                # failed proof alone is not reported: it must be confirmed by a concrete failing input on the real code;
-                # otherwise the run is undecided (exit 2). Failed preconditions at call sites in the code itself, functions
-                # without a replay operation, and unchanged functions are reported as before.
+            elif v.get("changed_vs_contract") and not v.get("contract_only") and _prop_ops(prop, v["region"]):
+                # The function differs from the text its proof hints were written for. Where the replay driver can exercise
+                # this function for this property, a failed proof alone is not reported: it must be confirmed by a concrete
+                # failing input on the real code; otherwise the run is undecided (exit 2). (This includes failed
+                # preconditions at call sites: with loops verified in isolation a harmless new local can break the loop's
+                # context bundle.) Functions / properties without a replay operation and unchanged functions are reported
+                # as before.
                 import cex
                 try:
                     found = cex.search(prop, v["region"], seed, tier)
